@@ -119,9 +119,9 @@ def setup_worker():
 
 def _argv(w):
     a = ["iodata-convert"]
-    if w.get("infmt"):
+    if w.get("infmt") is not None:
         a += ["-i", w["infmt"]]
-    if w.get("outfmt"):
+    if w.get("outfmt") is not None:
         a += ["-o", w["outfmt"]]
     if w.get("allow_changes"):
         a += ["-c"]
@@ -258,12 +258,15 @@ def run_main(w, data):
         if _signal.getsignal(_signal.SIGPIPE) is not _OLD_SIGPIPE:
             _signal.signal(_signal.SIGPIPE, _OLD_SIGPIPE)  # (a CLI may change it for its own process; the worker goes on)
     text = err.getvalue()
+    stdout_text = out.getvalue()
     if exc is not None:
         try:
             text += f"{type(exc).__name__}: {exc}"
         except Exception:  # noqa: BLE001 - what the interpreter prints when str() of the exception raises
             text += f"{type(exc).__name__}: <exception str() failed>"
-    return _outcome(disk, w, status, text, exc)
+    o_ = _outcome(disk, w, status, text, exc)
+    o_["stdout"] = stdout_text
+    return o_
 
 
 def run_subprocess(w, data):
@@ -299,8 +302,15 @@ def run_subprocess(w, data):
             return {"status": cp.returncode, "stderr": cp.stderr[-20000:], "bytes": None, "harness": "no result file"}
         okey = res["resolved"][w["output_name"]]
         b = res["files"].get(okey)
+        cwd_ = res["cwd"].rstrip("/") + "/"
+
+        def rel(p_):
+            return p_[len(cwd_):] if p_.startswith(cwd_) else p_  # (the subprocess has its own working directory)
+
+        tree = {"files": {rel(k): common.short(base64.b64decode(v), 16) for k, v in sorted(res["files"].items()) if rel(k) not in ("plan.json", "result.json")},
+                "symlinks": {rel(k): rel(v) for k, v in sorted(res.get("symlinks", {}).items())}, "dirs": sorted(rel(d) for d in res.get("made_dirs", []))}
         # (the whole chained traceback: the first exception of the chain names the floating-point trap of the CLI)
-        return {"status": cp.returncode, "stderr": cp.stderr[-20000:], "exc": None,
+        return {"status": cp.returncode, "stderr": cp.stderr[-20000:], "exc": None, "tree": tree, "stdout": cp.stdout,
                 "bytes": None if b is None else base64.b64decode(b),
                 "opened_w": sum(1 for e, p in res["events"] if e == "open_w" and p == okey),
                 "fired": [tuple(x) for x in res["fired"].get(okey, [])], "handles": 0}
@@ -322,6 +332,12 @@ def compare(w, api, other, label):
     if other.get("harness"):
         raise RuntimeError(f"HARNESS: {label}: {other['harness']}: {other['stderr']}")
     if other["status"] == 0:
+        if other.get("stdout"):
+            # standard output may be the output file (/dev/stdout, a pipe): anything the converter prints there ends up in the data
+            out.append(_v("stdout_not_empty", f"{label} exits 0 and printed on standard output: {other['stdout'][:80]!r}", w, label))
+        bad_fired = [f for f in other.get("fired") or [] if f[0] != "raw_short_write"]
+        if bad_fired:
+            out.append(_v("success_despite_write_fault", f"{label} exits 0 although the output disk reported {bad_fired}", w, label))
         if not ok_api:
             out.append(_v("success_reported_but_api_fails", f"{label} exits 0 but the API calls raise {et}: {_s(api['exc'])}", w, f"{label}/{et}"))
         elif other["bytes"] != api["bytes"]:
@@ -427,9 +443,11 @@ def gen_workload(rng, tier):
         w["many"] = True  # -m with a format that has no load_many: the API raises FileFormatError before anything is opened
     if infmt is None and rng.random() < 0.25:
         w["infmt"] = mod  # explicit although inferable
+    elif infmt is None and rng.random() < 0.04:
+        w["infmt"] = ""  # an option given with an empty value (-i "$FMT" with FMT unset): the API rejects the empty format name
     if w["outfmt"] is None and rng.random() < 0.25:
         om = c07.natural_fmt(outn)
-        w["outfmt"] = om if om and rng.random() < 0.85 else rng.choice(["nosuchformat", "gromacs", "xyz"])
+        w["outfmt"] = om if om and rng.random() < 0.85 else rng.choice(["nosuchformat", "gromacs", "xyz", ""])
     if rng.random() < 0.15:
         # names that select nothing: -o (and -i) carry the format
         om = c07.natural_fmt(outn)
